@@ -241,7 +241,7 @@ func (r *run) signSet(nd *node, ph string, shares []share.Share, shareIdx int, o
 	case "dep":
 		amount := r.c.amounts[0]
 		if other {
-			amount += deposit.OneEthInGwei
+			amount -= deposit.OneEthInGwei
 		}
 
 		return dkg.VerifSignDepositMsgs(shares, shareIdx, def.WithdrawalAddresses(), r.c.network, amount, def.Compounding)
